@@ -253,6 +253,8 @@ func runC06(c *Ctx) {
 	c.Describe("shape=%d leaves=%s dev=%v panicHook=%s fatalHook=%s front=%s level=%s others=%d pre=%d policy=%s", shape, c06leaves(w), development, c06hookNames[panicHook], c06hookNames[fatalHook], c6frontNames[front], lvl, nOthers, preLines, r.Policy)
 	c.MixState(uint64(shape)<<24 | uint64(panicHook)<<20 | uint64(fatalHook)<<16 | uint64(front)<<8 | uint64(lvl))
 
+	stopFirst := g.Chance(6)
+	c.Describe("stop-buffered-sinks-before-the-terminal-call=%v", stopFirst)
 	unstub, exitState := zap.ZsimStubExit()
 	defer unstub()
 
@@ -278,6 +280,16 @@ func runC06(c *Ctx) {
 		// that did not end the task (a sibling logger over the same cores whose
 		// panic and fatal hooks just return) - the terminal entry that follows
 		// them must be synced all the same
+		if stopFirst {
+			// a shutdown path that stops its buffered sinks and then still logs
+			// the fatal error: the syncer keeps accepting and flushing on Sync
+			for _, lf := range w.leaves {
+				if lf.bws != nil {
+					_ = lf.bws.Stop()
+				}
+			}
+			zsim.Yield(zsim.KOp, nil)
+		}
 		quiet := lg.WithOptions(zap.WithPanicHook(c06quiet{}), zap.WithFatalHook(c06quiet{}))
 		for i, pl := range w.preLevels {
 			msg := fmt.Sprintf("pre-%d", i)
